@@ -17,7 +17,9 @@ Definition mtag (k : N) : tag :=
   | 0 => [x11; x11; x11; x11; x11; x11; x11; x11]
   | 1 => [x00; x22; x22; x22; x22; x22; x22; x00]
   | 2 => [x11; x11; x11; x11; x11; x11; x11; x33]
-  | _ => [x44; x00; x00; x00; x00; x00; x00; x44]
+  | 3 => [x44; x00; x00; x00; x00; x00; x00; x44]
+  | _ => if k <? 1000 then [x44; x00; x00; x00; x00; x00; x00; x44]
+         else le_enc 8 (360287970189639936 + (k - 1000))   (* the harness's MTN<0x0500_0000_0000_0100 + j> *)
   end.
 
 Inductive mitem :=
